@@ -227,6 +227,46 @@ class Inv:
                 # the range test is on every iteration's path: no `continue` can bypass it
                 every = L is not None and all(vb.cfg.dominates(sw, x) for x, _ in L['back_edges'])
                 okv = q.arm_always_err(vb, bad) and whole and every
+        if not okv:
+            # iterator form: tiles.iter().find / position / any (|t| t.id() >= tile_count) whose "found" outcome is the Err
+            for c2 in q.calls(vb):
+                nm = c2.callee.split('::')[-1]
+                if not c2.callee.startswith('std::iter::Iterator::') or nm not in ('find', 'position', 'any', 'all'):
+                    continue
+                at2 = q.arg_terms(c2)
+                src = q.unwrap_into_iter(at2[0])
+                whole = any(x[0] == 'field' and x[2] == 'tiles' for x in walk(src)) and not any(
+                    x[0] == 'call' and x[1].split('::')[-1] in ('take', 'skip', 'step_by', 'filter', 'rev') and False for x in walk(src)) and \
+                    not any(x[0] == 'call' and x[1].split('::')[-1] in ('take', 'skip', 'step_by', 'filter', 'skip_while', 'take_while') for x in walk(src))
+                clo = at2[1]
+                pred_ok = False
+                if clo[0] == 'closure' and clo[1] in fx.by_path:
+                    r_ = q.res(fx.by_path[clo[1]]).ret()
+                    caps = [c_[1] for c_ in clo[2]]
+                    for op, l, r2 in q.holds_both(r_, True if nm != 'all' else False):
+                        # "bad" element: id >= tile_count   (for all(): the closure states the good case, its negation is bad)
+                        lid = any(x[0] == 'call' and x[1].endswith('Tile::id') for x in walk(l)) or any(x[0] == 'field' and x[2] == 'id' for x in walk(l))
+                        rc = any(is_param(x, 2) for cp in caps for x in walk(cp)) and any(x[0] == 'field' and is_param(x[1], 1) for x in walk(r2))
+                        if op == 'Ge' and lid and rc:
+                            pred_ok = True
+                # the found / true outcome must be the error
+                bad_is_err = False
+                for sw in q.switches_on(vb, lambda d: True):
+                    d = q.switch_cond(vb, sw)
+                    tm = vb.blocks[sw]['term']
+                    subj = d[1] if d[0] == 'discr' else d
+                    if not any(x[0] == 'call' and x[3] == (vb.name, c2.bb) for x in walk(subj)):
+                        continue
+                    if nm in ('find', 'position') and d[0] == 'discr':
+                        some_edges = [s_ for v_, s_ in tm['targets'] if v_ == 1] or ([tm['otherwise']] if any(v_ == 0 for v_, _ in tm['targets']) else [])
+                        bad_is_err = bool(some_edges) and all(q.arm_always_err(vb, e) for e in some_edges)
+                    elif nm == 'any':
+                        bad_is_err = q.arm_always_err(vb, tm['otherwise'])
+                    elif nm == 'all':
+                        f_edge = [s_ for v_, s_ in tm['targets'] if v_ == 0]
+                        bad_is_err = bool(f_edge) and q.arm_always_err(vb, f_edge[0])
+                if whole and pred_ok and bad_is_err:
+                    okv = True
         pr = chain_propagates(fx, rv.name)
         return ok and okv and not pr, ('every tilemap cel passes validate_tile_ids(tile_count of its layer\'s tileset), which rejects id >= tile_count for every tile'
                                        if ok and okv and not pr else 'tile-id validation incomplete (%s %s %s)' % (ok, okv, pr))
@@ -299,13 +339,9 @@ class Inv:
         fx = self.fx
         lv = fx.body('asefile::layer::LayersData::validate')
         ok = False
-        for c in q.calls(lv, 'std::option::Option::ok_or_else'):
-            a0 = q.arg_terms(c)[0]
-            if a0[0] == 'call' and a0[1] == 'asefile::tileset::TilesetsById::get' and is_param(a0[2][0], 2):
-                fates = q.result_fates(lv, c.dest['l'])
-                L = lv.cfg.loop_of(c.bb)
-                ok = bool(fates) and all(f[0] == 'try' for f in fates) and L is not None and \
-                    all(k in ('exhausted', 'err', 'unreachable') for _, _, k in q.loop_exit_kinds(lv, L))
+        for site in T.option_required(lv, lambda a0: a0[0] == 'call' and a0[1] == 'asefile::tileset::TilesetsById::get' and is_param(a0[2][0], 2)):
+            L = lv.cfg.loop_of(site)
+            ok = L is not None and all(k in ('exhausted', 'err', 'unreachable') for _, _, k in q.loop_exit_kinds(lv, L))
         pr = chain_propagates(fx, lv.name)
         tv = fx.body('asefile::tileset::TilesetsById::validate')
         okp = all(dict(t[3])['pixels'][0] == 'agg' and dict(t[3])['pixels'][2] == 'Some' for _, _, t in q.stmt_aggs(tv, 'asefile::tileset::Tileset'))
@@ -396,6 +432,12 @@ class Inv:
             f = dict(t[3])
             agg_ok = is_param(f['layers'], 1) and f['parents'][0] == 'call' and f['parents'][1] == b.name and is_param(f['parents'][2][0], 1)
         others = [b2.name for b2 in fx.bodies for _ in q.stmt_aggs(b2, 'asefile::layer::LayersData') if b2.name != fv.name]
+        if not lt:
+            # second accepted spelling: an explicit loop over 0..id (rules/parents.py)
+            import parents
+            lf = parents.loop_form(fx)
+            if lf is not None and lf['whole'] and lf['lt_index']:
+                ok, lt = True, True
         return ok and lt and agg_ok and not others, ('compute_parents pushes exactly one entry per layer and a parent id is an rposition within the first `id` layers (< id); '
                                                      'LayersData is built only from (layers, compute_parents(&layers))' if ok and lt and agg_ok and not others else
                                                      'parent table invariant not established (%s %s %s %s)' % (ok, lt, agg_ok, others))
@@ -406,13 +448,16 @@ class Inv:
         fv = fx.body('asefile::layer::LayersData::from_vec')
         ok = False
         for bb, st, t in q.stmt_aggs(fv, 'asefile::layer::LayersData'):
-            for cond, vals, a in q.guards(fv, bb):
-                if cond[0] == 'bin' and cond[1] == 'Gt' and q.bool_outcome(fv, a, vals) is False:
-                    l, r_ = strip_casts(cond[2]), cond[3]
+            # on the way to the construction `layers.len() <= c` (or `< c + 1`) holds, the other side of that branch is an error
+            def pred(cond, truth):
+                for op, l, r_ in q.holds_both(cond, truth):
                     c = q.const_val(r_)
-                    if l[0] == 'call' and l[1] in T.LEN and is_param(l[2][0], 1) and isinstance(c, int) and c <= 65536 \
-                            and q.arm_always_err(fv, fv.blocks[a]['term']['otherwise']):
-                        ok = True
+                    if l[0] == 'call' and l[1] in T.LEN and is_param(l[2][0], 1) and isinstance(c, int) and \
+                            ((op == 'Le' and c <= 65536) or (op == 'Lt' and c <= 65537)):
+                        return True
+                return False
+            if T.rejecting_guard(fv, bb, pred):
+                ok = True
         ok10, _ = self.get('I10')
         return ok and ok10, ('LayersData is built only after `layers.len() > 65536 -> Err`, so every layer id fits u16' if ok and ok10 else
                              'layer count cap not established')
